@@ -10,7 +10,7 @@ import (
 	"hzcheck/esp"
 )
 
-func init() { register("C06", c06Reparent, c06Params) }
+func init() { register("C06", c06Reparent, c06Params, c06Payload) }
 
 // childFields returns the fields of the route-tree node that hold child nodes (type *node or
 // a slice of *node), excluding the back pointer.
